@@ -270,6 +270,35 @@ func init() {
 			}
 		}
 		recUp(nil)
+		// ... and the SAME root text meaning another directory later in the process: "." after the process has moved to
+		// W/out, and a root given through a link (W/cur) that is repointed from root to out between two loads.  Whatever
+		// is served must lie inside what the root text resolves to NOW.
+		hist := func(tag string, lib *lisp.RelativeFileSystemLibrary, locs []string) {
+			for _, loc := range locs {
+				ncase++
+				_, _, data, err := lib.LoadSource(lisp.NewSourceContext("ctx", ""), loc)
+				m := ""
+				if err == nil {
+					m = marker(data)
+				}
+				out.emit(J{"history": true, "tag": tag, "root": lib.RootDir, "loc": loc, "marker": m})
+			}
+		}
+		must(os.Chdir(filepath.Join(W, "root")))
+		hist("dot-in-root", &lisp.RelativeFileSystemLibrary{RootDir: "."}, []string{"a.lisp", "sub/b.lisp", "../out/secret.lisp", filepath.Join(W, "out", "a.lisp")})
+		must(os.Chdir(filepath.Join(W, "out")))
+		hist("dot-in-out", &lisp.RelativeFileSystemLibrary{RootDir: "."}, []string{"a.lisp", "secret.lisp", "../root/a.lisp", "../root/sub/b.lisp", filepath.Join(W, "root", "a.lisp"), filepath.Join(W, "root", "main.lisp")})
+		must(os.Chdir(filepath.Join(W, "root", "sub")))
+		hist("dot-in-sub", &lisp.RelativeFileSystemLibrary{RootDir: "."}, []string{"b.lisp", "../a.lisp", "../main.lisp", filepath.Join(W, "root", "a.lisp"), filepath.Join(W, "out", "a.lisp")})
+		cur := filepath.Join(W, "cur")
+		must(os.Symlink("root", cur))
+		hist("cur-is-root", &lisp.RelativeFileSystemLibrary{RootDir: cur}, []string{filepath.Join(cur, "a.lisp"), filepath.Join(W, "root", "a.lisp"), filepath.Join(W, "out", "a.lisp")})
+		must(os.Remove(cur))
+		must(os.Symlink("out", cur))
+		hist("cur-is-out", &lisp.RelativeFileSystemLibrary{RootDir: cur}, []string{filepath.Join(cur, "a.lisp"), filepath.Join(W, "root", "a.lisp"), filepath.Join(W, "root", "sub", "b.lisp"), filepath.Join(W, "out", "secret.lisp")})
+		must(os.Remove(cur))
+		must(os.Symlink(filepath.Join("root", "sub"), cur))
+		hist("cur-is-sub", &lisp.RelativeFileSystemLibrary{RootDir: cur}, []string{filepath.Join(cur, "b.lisp"), filepath.Join(W, "root", "a.lisp"), filepath.Join(W, "out", "a.lisp"), filepath.Join(W, "root", "sub", "x.lisp")})
 		out.emit(J{"summary": true, "cases": ncase})
 	}
 }
